@@ -34,7 +34,10 @@ struct CompositeBase
     {
         return {"", "create_track(2);create_root(|s);add_track(0,0)", "create_track(0);create_root(|p);create_sub(0|q);remove_track(0);create_track(3)",
                 // a chain of four crates with a track in the deepest one (deeper than the alphabet's crate limit lets the search build)
-                "@1:create_root(|c0);create_sub(0|c1);create_sub(1|c2);create_sub(2|c3);create_track(2);add_track(3,0)"};
+                "@1:create_root(|c0);create_sub(0|c1);create_sub(1|c2);create_sub(2|c3);create_track(2);add_track(3,0)",
+                // a chain of three next to a two-crate tree: one move puts a subtree under a parent that has two ancestors
+                // (the flattened hierarchy then needs rows for every ancestor of the new parent, not only for its parent)
+                "@1:create_root(|d0);create_sub(0|d1);create_sub(1|d2);create_root(|d3);create_sub(3|d4)"};
     }
     static std::vector<Op> alphabet(const Model& m, const World&, int)
     {
